@@ -22,6 +22,8 @@ import M17.Model.Dcd
 import M17.Model.App
 import M17.Model.Demod
 import M17.Model.Ax25
+import M17.Model.TxMod
+import M17.Model.Clock
 
 open M17
 
@@ -170,6 +172,10 @@ def iirRun {α : Type} [Add α] [Sub α] [Mul α] [OfNat α 0] (b a : List α) (
   let (_, out) := toks.foldl (fun (st : Dsp.Iir3 α × List Int) t => let (f', y) := st.1.step (conv t); (f', st.2 ++ [show_ y])) (f0, [])
   joinInts out
 
+def clockFreeRun : Nat → List Int → List Int → List Int
+  | fu + 1, e :: c :: n :: rest, acc => clockFreeRun fu rest (acc ++ [Clock.freeIndex e c n.toNat])
+  | _, _, acc => acc
+
 /-- state carried across lines (stateful components get a field each) -/
 structure DrvState where
   dec : Dec.DState := Dec.init
@@ -241,6 +247,16 @@ def handle (st : DrvState) (op : String) (a : List Int) : DrvState × String :=
     let g := match rest with | [x] => x.toNat | _ => Gen.prbsInitState
     (st, joinInts ((bitsToInts (Prbs.genBits n.toNat g)) ++ [Int.ofNat (Prbs.genState n.toNat g)]))
   | "prbs", toks => (st, prbsScenario toks)
+  | "mod_lsf", _bs :: _inv :: can :: ns :: rest =>
+    -- model of m17-mod's send_lsf in bitstream mode (same request as harness/drv_mod.cpp): <30 LSF bytes> | <48 output bytes>
+    let src := (rest.take ns.toNat).map Int.toNat
+    let rest2 := rest.drop ns.toNat
+    let dst := match rest2 with | nd :: r => (r.take nd.toNat).map Int.toNat | [] => []
+    (st, joinNats (TxMod.lsfBytes src dst can.toNat) ++ " | " ++ joinNats (TxMod.sendLsf src dst can.toNat))
+  | "mod_data", fn :: p => (st, joinInts (TxMod.dataFrame fn.toNat (p.map Int.toNat)))
+  | "mod_lich", n :: seg => (st, joinInts (TxMod.lichSegment (seg.map Int.toNat) n.toNat))
+  | "mod_audio_frame", _bs :: _inv :: rest => (st, joinNats (TxMod.sendAudioFrame (rest.take 96) (rest.drop 96)))
+  | "clock_free", toks => (st, joinInts (clockFreeRun toks.length toks []))
   | "ax25", bytes =>
     let bs (l : List Nat) := String.join (l.map fun b => " " ++ toString b)
     let show_ (d s : List Nat) (reps : List (List Nat)) (t : Nat) (pid : Option Nat) (info : List Nat) :=
